@@ -30,6 +30,7 @@ class Context:
           algorithms.
         """
         self._expression_counter = 0
+        self._tmp_counter = 0
         self._expressions = {}
         self._stack_name = ""
         self._stack_call_count = defaultdict(int)
